@@ -24,6 +24,7 @@ from efootprint.constants.units import u  # noqa: E402
 
 RTOL = 1e-9
 ATOL = 1e-12
+LIBRARY_ROUNDING_QUANTUM = 1.0001e-4     # kg: System.update_total_footprint rounds to 4 decimals
 
 _unit_cache = {}
 
@@ -314,7 +315,11 @@ def diff(s1, s2, rtol=RTOL, atol=ATOL, empty_entries_neutral=False):
             a, b = s1[k], s2[k]
             if empty_entries_neutral:
                 a, b = strip_empty_entries(a), strip_empty_entries(b)
-            if not close(a, b, rtol, atol):
+            # System.total_footprint is rounded to 4 decimals of kg by the library: two computations that agree to
+            # 1e-16 can land on either side of a rounding boundary, so one quantum is allowed for this attribute only
+            k_atol = max(atol, LIBRARY_ROUNDING_QUANTUM) if (isinstance(k, tuple) and len(k) > 1
+                                                              and k[1] == "total_footprint" and atol > 0) else atol
+            if not close(a, b, rtol, k_atol):
                 out.append((k, render(s1[k]), render(s2[k])))
     return out
 
